@@ -14,6 +14,9 @@ pub struct Node {
     pub hist: Vec<u8>,
     pub model: Model,
     pub fp: u128,
+    /// a known finding lies on the path to this state: only the clauses that cannot be
+    /// its consequence are still evaluated below it
+    pub taint: bool,
 }
 
 pub struct JobResult {
@@ -162,7 +165,15 @@ impl Prune {
         if asan && v.prop == "C08" {
             return unsafe_to_continue;
         }
-        self.prop.is_empty() || v.prop == self.prop || unsafe_to_continue || self.is_known(v)
+        self.prop.is_empty() || (v.prop == self.prop && !self.is_known(v)) || unsafe_to_continue
+    }
+    /// Below a known finding (an entry maintenance failed to purge: still linked, still
+    /// counted, still occupying room) the clauses about counters, release, room and
+    /// recency order would only restate it. What must hold regardless: no lookup ever
+    /// shows a dead entry, the structures stay well formed, calls return, lookups stay pure.
+    pub fn independent_of_known(v: &Violation) -> bool {
+        const UPPER: [&str; 6] = ["stale-value", "phantom", "visible-after", "visible-past", "iter-yields-dead-entry", "iter-duplicate-key"];
+        matches!(v.prop, "C08" | "C09" | "C15") || UPPER.iter().any(|s| v.sig.contains(s))
     }
 }
 
@@ -222,7 +233,7 @@ pub fn run_job(cfg: &Cfg, journal_path: Option<String>, wall_cap_s: f64) -> JobR
     drop(sut0);
     seen.insert(fp0);
     res.states = 1;
-    let mut frontier = vec![Node { hist: vec![], model: m0, fp: fp0 }];
+    let mut frontier = vec![Node { hist: vec![], model: m0, fp: fp0, taint: false }];
     res.level_sizes.push(1);
 
     'levels: for depth in 0..cfg.d {
@@ -231,7 +242,7 @@ pub fn run_job(cfg: &Cfg, journal_path: Option<String>, wall_cap_s: f64) -> JobR
             let hist_ops: Vec<Op> = node.hist.iter().map(|i| alpha[*i as usize]).collect();
             let mut first = true;
             for (oi, op) in alpha.iter().enumerate() {
-                if let Op::Adv(_) = op {
+                if let Op::Adv(_) | Op::IterAdv(_) = op {
                     if node.model.advances as usize >= cfg.a {
                         continue;
                     }
@@ -293,6 +304,10 @@ pub fn run_job(cfg: &Cfg, journal_path: Option<String>, wall_cap_s: f64) -> JobR
                         viols.push(Violation { prop: "C08", sig: "drop-protocol:drop".into(), detail: p, witness: String::new() });
                     }
                 }
+                if node.taint {
+                    viols.retain(Prune::independent_of_known);
+                }
+                let taint = node.taint || viols.iter().any(|vv| prune.is_known(vv));
                 if !viols.is_empty() {
                     let stop = dead || viols.iter().any(|vv| prune.stops(vv));
                     for mut vv in viols {
@@ -310,7 +325,9 @@ pub fn run_job(cfg: &Cfg, journal_path: Option<String>, wall_cap_s: f64) -> JobR
                 }
                 let post = post.unwrap();
                 let fp = state_fp(cfg, &post, now, &model);
-                if !seen.insert(fp) {
+                // (a state reached below a known finding is kept apart from the same
+                // state reached without one: fewer clauses are evaluated below it)
+                if !seen.insert(if taint { fp ^ 0x5a5a_5a5a_5a5a_5a5a_5a5a_5a5a_5a5a_5a5a } else { fp }) {
                     continue;
                 }
                 res.states += 1;
@@ -323,7 +340,7 @@ pub fn run_job(cfg: &Cfg, journal_path: Option<String>, wall_cap_s: f64) -> JobR
                 }
                 let mut h = node.hist.clone();
                 h.push(oi as u8);
-                next.push(Node { hist: h, model, fp });
+                next.push(Node { hist: h, model, fp, taint });
             }
         }
         res.depth_done = depth + 1;
@@ -839,6 +856,14 @@ pub fn longrun_replay(w: &str) -> Vec<Violation> {
             std::mem::forget(sut);
             return all;
         }
+    }
+    // release on drop, as in the run itself
+    drop(sut);
+    let (lk, lv) = tracker().live();
+    if lk != 0 || lv != 0 {
+        let v = Violation { prop: "C11", sig: "longrun:leak-after-drop".into(), detail: format!("{lk} keys and {lv} values alive after drop"), witness: w.to_string() };
+        println!("      VIOLATED {} [{}]: {}", v.prop, v.sig, v.detail);
+        all.push(v);
     }
     all
 }
